@@ -73,6 +73,7 @@ pub fn scenario(idx: usize, seed: u64, rpcs: usize) -> ScenarioResult {
         let counters = [Arc::new(AtomicUsize::new(0)), Arc::new(AtomicUsize::new(0))];
         let with_layer = [rng.gen_bool(0.5), rng.gen_bool(0.5)];
         let mut defaults = Vec::new();
+        let mut layer_delay_us = [0u64; 2];
         for i in 0..2 {
             let mut c = NodeCfg::new(w.gen_key());
             let o = pick(&mut rng);
@@ -85,10 +86,17 @@ pub fn scenario(idx: usize, seed: u64, rpcs: usize) -> ScenarioResult {
             c.config.quic = Some(q);
             if with_layer[i] {
                 c.outbound_layer = Some(counters[i].clone());
+                // half of the user layers are not pass-through: they forward a request only after a
+                // while (throttle / queue); that time counts against the caller's deadline
+                if rng.gen_bool(0.5) {
+                    layer_delay_us[i] = *[120_000u64, 400_000, 1_500_000].choose(&mut rng).unwrap();
+                    c.outbound_layer_delay = Duration::from_micros(layer_delay_us[i]);
+                }
             }
             defaults.push((o, ib));
             cfgs.push(c);
         }
+        let layer_delay_us = layer_delay_us;
         let a = w.start_node(cfgs.remove(0)).unwrap();
         let b = w.start_node(cfgs.remove(0)).unwrap();
         if a.net.connect(b.addr).await.is_err() {
@@ -130,12 +138,16 @@ pub fn scenario(idx: usize, seed: u64, rpcs: usize) -> ScenarioResult {
             if dv.min(cv).min(sv) > 100_000_000 {
                 continue; // nothing would return within the scenario's virtual horizon
             }
-            let same_header = c.is_some() && c == s && c == h && o.map(|x| x > h.unwrap()).unwrap_or(true) && i_def.map(|x| x > h.unwrap()).unwrap_or(true);
-            let expect = if dv.saturating_add(MARGIN_US) <= cv.min(sv) && !(dv == 0 && cv.min(sv) < MARGIN_US) {
+            // u: time the caller's own outbound layer holds the request before forwarding it; the
+            // caller's deadline runs from the call, the serving side's from the arrival
+            let u = layer_delay_us[from];
+            let (du, su) = (dv.saturating_add(u), sv.saturating_add(u));
+            let same_header = u == 0 && c.is_some() && c == s && c == h && o.map(|x| x > h.unwrap()).unwrap_or(true) && i_def.map(|x| x > h.unwrap()).unwrap_or(true);
+            let expect = if dv.saturating_add(MARGIN_US) <= sv && du.saturating_add(MARGIN_US) <= cv && !(dv == 0 && cv.min(sv) < MARGIN_US) {
                 Expect::Success
-            } else if sv.saturating_add(MARGIN_US) <= dv.min(cv) {
+            } else if sv.saturating_add(MARGIN_US) <= dv && su.saturating_add(MARGIN_US) <= cv {
                 Expect::ServerTimeout
-            } else if cv.saturating_add(MARGIN_US) <= dv.min(sv) || (same_header && cv.saturating_add(MARGIN_US) <= dv) {
+            } else if cv.saturating_add(MARGIN_US) <= du.min(su) || (same_header && cv.saturating_add(MARGIN_US) <= dv) {
                 Expect::CallerTimeout
             } else if cv == 0 && sv == 0 && dv >= MARGIN_US {
                 Expect::CallerTimeout
@@ -240,7 +252,7 @@ pub fn scenario(idx: usize, seed: u64, rpcs: usize) -> ScenarioResult {
                         Ok(r) if r.status().to_u16() == 200 && r.body().len() == 33 => {}
                         other => bad(format!("handler needs less than every deadline but the call returned {:?}", other.as_ref().map(|r| r.status()).map_err(|e| e.to_string()))),
                     }
-                    let want = 2 * L_US + dv;
+                    let want = 2 * L_US + du;
                     if elapsed > want + TOL_US || elapsed + TOL_US < want {
                         bad(format!("successful call took {elapsed} us, expected {want}"));
                     }
@@ -254,7 +266,7 @@ pub fn scenario(idx: usize, seed: u64, rpcs: usize) -> ScenarioResult {
                         Ok(r) if r.status().to_u16() == 408 => {}
                         other => bad(format!("serving side's deadline ({sv} us) is the smallest but the call returned {:?}", other.as_ref().map(|r| r.status()).map_err(|e| e.to_string()))),
                     }
-                    let want = 2 * L_US + sv;
+                    let want = 2 * L_US + su;
                     if elapsed > want + TOL_US || elapsed + TOL_US < want {
                         bad(format!("RequestTimeout reply arrived after {elapsed} us, expected {want}"));
                     }
@@ -281,7 +293,7 @@ pub fn scenario(idx: usize, seed: u64, rpcs: usize) -> ScenarioResult {
                     if elapsed > cv + TOL_US || elapsed + TOL_US < cv {
                         bad(format!("caller's timeout fired after {elapsed} us, deadline {cv}"));
                     }
-                    if h_fin && dv > cv + 4 * L_US + 20_000 {
+                    if h_fin && du > cv + 4 * L_US + 20_000 {
                         bad("handler ran to completion although the caller had given up".into());
                     }
                     if let (Some(_), None) = (h_start, h_end) {
